@@ -269,6 +269,13 @@ def _plant(tree, world):
         for sub in ("private/sub", "private/new", "private/cur", "private/tmp"):
             os.makedirs(os.path.join(tree.tmp, sub), exist_ok=True)
         tree.outside("private/new/1", b"Subject: SECRET mail outside the root\n\nTOP-SECRET-A\n")
+        tree.outside("outside-tpl.html.tal", b"<b>TOP-SECRET-A template outside the root</b>")
+    else:
+        for nm in ("outside-tpl.html.tal",):
+            if os.path.exists(os.path.join(tree.tmp, nm)):
+                os.unlink(os.path.join(tree.tmp, nm))
+    if world == "A":
+        pass
     cwd = os.path.join(tree.tmp, "cwd" + world)
     os.makedirs(cwd, exist_ok=True)
     if world == "A":
